@@ -1027,6 +1027,68 @@ fn cs_name_op(args: &[&str]) -> Resp {
     Ok(o)
 }
 
+/// `cs_name_bulk <seed> <count>`: `count` strings that are *not* registry names - registry names with a decimal or
+/// alphabetic tail, a changed character, or a changed prefix, drawn from a xorshift stream - through both name routes:
+/// how many resolved to a suite, and the first few that did (hex of the string, id found).
+fn cs_name_bulk_op(args: &[&str]) -> Resp {
+    use std::convert::TryFrom;
+    nargs(args, 2)?;
+    let mut x = parse_num(args[0], u64::MAX >> 1)? | 1;
+    let count = parse_num(args[1], 1 << 32)?;
+    let mut names: Vec<&'static str> = CIPHERS.values().map(|c| c.name).collect();
+    names.sort_unstable();
+    let set: std::collections::HashSet<&str> = names.iter().copied().collect();
+    let mut hits = 0u64;
+    let mut first = String::new();
+    let mut s = String::with_capacity(96);
+    for _ in 0..count {
+        x ^= x << 13;
+        x ^= x >> 7;
+        x ^= x << 17;
+        let base = names[(x >> 20) as usize % names.len()];
+        s.clear();
+        match (x >> 8) & 3 {
+            0 => {
+                s.push_str(base);
+                let _ = write!(s, "_{}", x >> 33);
+            }
+            1 => {
+                s.push_str(base);
+                for k in 0..(1 + (x >> 12) % 5) {
+                    s.push((b'A' + ((x >> (16 + 5 * k)) % 26) as u8) as char);
+                }
+            }
+            2 => {
+                let b = base.as_bytes();
+                let p = (x >> 12) as usize % b.len();
+                let c = b'0' + ((x >> 30) % 75) as u8;
+                s.push_str(&base[..p]);
+                s.push(c as char);
+                s.push_str(&base[p + 1..]);
+            }
+            _ => {
+                let _ = write!(s, "T{}", x >> 40);
+                s.push_str(&base[3.min(base.len())..]);
+            }
+        }
+        if set.contains(s.as_str()) {
+            continue;
+        }
+        let a = TlsCipherSuite::from_name(&s);
+        let b = <&TlsCipherSuite>::try_from(s.as_str()).ok();
+        if a.is_some() || b.is_some() {
+            hits += 1;
+            if hits <= 3 {
+                let id = a.or(b).map(|c| c.id.0).unwrap_or(0);
+                let _ = write!(first, " ({} ", id);
+                push_owned(&mut first, s.as_bytes());
+                first.push(')');
+            }
+        }
+    }
+    Ok(format!("ok (Bulk {} {}{})", count, hits, first))
+}
+
 fn keybits_op(args: &[&str]) -> Resp {
     nargs(args, 1)?;
     let v = num_u16(args[0])?;
@@ -1083,6 +1145,7 @@ fn dispatch(line: &str) -> Resp {
         "cs_id" => cs_id_op(&args),
         "cs_row" => cs_row_op(&args),
         "cs_name" => cs_name_op(&args),
+        "cs_name_bulk" => cs_name_bulk_op(&args),
         "disp" => reg::disp_op(&args),
         "dbg" => reg::dbg_op(&args),
         "conv" => reg::conv_op(&args),
